@@ -485,6 +485,9 @@ def main_check(check, tier=None):
                   f"[seen in {len(recs)} runs]")
         else:
             new_classes.append(cls)
+    prefer = os.environ.get("VERIF_PREFER")
+    if prefer:
+        new_classes.sort(key=lambda c: (prefer not in c, c))
     nviol = 0
     shrink_budget = defaults.get("shrink_s", 40.0)
     for cls in new_classes[:3]:
